@@ -27,14 +27,23 @@ RULE = ("prog: 2..6 flows, each waits for `match E(<subset of the payload, occas
         "prio*(num/den)^k (Lean mcmp). non-trivial = some recorded call has >= 2 heads in one loop, or a score pair that differs in k or priority; "
         "distinct = distinct case JSON. Phase 4: 10% low-priority programs (priority 0.05..0.3, 4..10 event parameters, neighbouring specificity levels); "
         "shape `borrow` (the flow sends the Start event of an action it holds by reference only); `@loop(\"NEW\")` programs; two keyword arguments written "
-        "in either order; 4% restart programs (sharers of one action send its Start event again against a fresh instance).")
+        "in either order; 4% restart programs (sharers of one action send its Start event again against a fresh instance). Phase 5: 25% path programs "
+        "(g_prog_paths; 25% of the `direct` flows of g_prog get a path too): the flow waits with a plain match, an or-group (other event / second pattern, fitting or not), an and-group "
+        "(equally specific patterns), `when E / or when X`, `await u or v`, `await u and v`; between the match and the action 0..2 of: assignment, send of an internal event "
+        "(UserIntentLog, StopFlow of no flow), start of a helper flow, await of a flow that ends at once; the action is wrapped in 0..3 flows (say<d> / emit<d>); 25% of them are triggered "
+        "by an action event (UtteranceUserAction.Finished) instead of E; 20% of the declared priorities override an earlier priority statement; 30% are ROUNDS programs: the flows end after "
+        "their action and are activated (or loop in `while True`), and 1..2 further events with the same keys and re-drawn values follow — every round is judged. For every run_to_completion call "
+        "of a program the skeleton of the main loop is recorded and replayed on the Lean loop model (C05.round).")
 TRUSTED_BASE = [
     "record/replay harness harness/props/C05.py (recorders around _resolve_action_conflicts/_abort_flow/random.choice, rank mapping of floats, "
-    "event keys = canonical JSON of name+arguments) + Lean driver Drive/C05.lean",
+    "event keys = canonical JSON of name+arguments; phase 5: recorders around _advance_head_front / _process_internal_events_without_default_matchers that classify the "
+    "calls of the main loop as event / merge pass / advance and count the pushed internal events) + Lean driver Drive/C05.lean",
     "CPython: `sorted` is stable also with reverse=True, list comparison is lexicographic, dict iteration is insertion ordered; float comparison "
     "(the model sees ranks of the floats that occur in a call, an order isomorphism)",
 ]
 ASSUMPTIONS = [
+    "round model (ConflictRound): `_advance_head_front(state, [])` pushes no internal event (hypothesis hnil of round_drains_before_resolve; the recorded push count of every merge pass "
+    "is part of the replayed script, so a violation shows as a queue length > 0 at a resolution); what processing an event / advancing heads returns is a parameter (World), observed per run",
     "head uids handed to _resolve_action_conflicts are pairwise distinct (checked on every recorded call)",
     "the look-ups of the co-winner branch (action_uids.index, del state.actions[uid]) succeed when the competing flow owns its action and the uid is still "
     "in state.actions (theorem cowin_lookups_succeed; modelled as-is by cowinStepAsIs); where they do not: findings cowin-on-borrowed-action, cowin-double-delete",
@@ -84,6 +93,9 @@ def g_prog(rng):
         f["stop_after"] = f["ref"] and rng.random() < 0.5
         if rng.random() < 0.3:
             f["swap"] = True  # keyword arguments of the action / event written in the other order
+        if rng.random() < 0.25:
+            add_path(rng, f, payload, False)
+            f["stop_after"] = f["ref"] and f["stop_after"]
         flows.append(f)
     if nloops == 1 and rng.random() < 0.08:
         # every flow declares `@loop("NEW")`: each instance gets an interaction loop of its own, nobody competes
@@ -93,7 +105,145 @@ def g_prog(rng):
             "followup": any(f["stop_after"] for f in flows)}
     if rng.random() < 0.35:
         case["args2"] = True  # every action / event of the pool carries a second keyword argument
+    if rng.random() < 0.12:
+        case["evtype"] = "action"
     return case
+
+
+WAITS = ["plain", "or", "or", "and", "when", "await_or", "await_and"]
+PRES = ["assign", "sendint", "starthelper", "awaitfin", "stopint"]
+
+
+def add_path(rng, f, payload, heavy):
+    """Phase 5: HOW a `direct` flow reaches its action.  `wait` = the construct that waits for the event (plain match, or-group /
+    and-group of matches, `when … or when …`, await of an or-/and-group of flows: all groups expand to ForkHead/MergeHeads);
+    `pre` = statements between the match and the action (assignment, send of an internal event, start of a helper flow, await of a
+    flow that finishes at once); `wrap` = number of wrapper flows around the action (`say2 "x"` -> `await say1 $t` ->
+    `await UtteranceBotAction(script=$t)`), i.e. the number of internal StartFlow hops between the match and the actionable head."""
+    if f["shape"] != "direct" or f.get("trigger"):
+        return f
+    kind = rng.choice(WAITS) if heavy or rng.random() < 0.5 else "plain"
+    pat = f["pat"]
+    fit = all(k in payload and payload[k] == v for k, v in pat.items())
+    w = {"kind": kind}
+    if kind == "or":
+        r = rng.random()
+        if r < 0.4:
+            w["alt"] = None  # another event that never comes
+        else:
+            keys = rng.sample(list(payload), rng.randrange(0, len(payload) + 1))
+            alt = {k: payload[k] for k in keys}
+            if r < 0.55:
+                alt[rng.choice(KEYS)] = 3
+            w["alt"] = alt
+        w["alt_first"] = rng.random() < 0.5
+    elif kind in ("and", "await_and"):
+        # both components are equally specific (same number of mentioned parameters) and fit / do not fit together
+        if fit and len(pat) <= len(payload):
+            keys = rng.sample(list(payload), len(pat))
+            w["alt"] = {k: payload[k] for k in keys}
+        else:
+            w["alt"] = dict(pat)
+    elif kind == "await_or":
+        w["alt_first"] = rng.random() < 0.5
+    if kind != "plain":
+        f["wait"] = w
+    npre = rng.choice([0, 0, 1, 1, 2] if heavy else [0, 0, 0, 1])
+    if npre:
+        f["pre"] = [rng.choice(PRES) for _ in range(npre)]
+    f["wrap"] = rng.choice([0, 1, 1, 2, 3] if heavy else [0, 0, 1, 2])
+    if f["kind"] == "send":
+        f["wrap"] = min(f["wrap"], 2)
+    if f["wrap"] or kind == "when":
+        f["ref"] = False
+        f["stop_after"] = False
+    return f
+
+
+def g_prog_paths(rng):
+    """2..5 flows of (mostly) one loop; every flow reaches its action through a generated path (see add_path), the two sides of a
+    competition with path lengths of their own."""
+    npay = rng.choice([1, 2, 2, 3, 3, 4])
+    payload = {k: rng.choice([1, 2]) for k in rng.sample(KEYS, npay)}
+    n = rng.choice([2, 2, 2, 3, 3, 4, 5])
+    loops = LOOPS[: rng.choice([1, 1, 1, 2])]
+    poolsize = rng.choice([1, 2, 2, 3, 3])
+    flows = []
+    for i in range(n):
+        keys = rng.sample(list(payload), rng.randrange(0, len(payload) + 1))
+        pat = {k: payload[k] for k in keys}
+        if rng.random() < 0.07:
+            pat[rng.choice(KEYS)] = 3
+        shape = rng.choice(["direct"] * 7 + ["await", "helper", "when"])
+        f = {"pat": pat, "prio": rng.choice(PRIOS), "loop": rng.choice(loops), "shape": shape,
+             "kind": "send" if shape == "direct" and rng.random() < 0.15 else "action", "act": rng.randrange(poolsize),
+             "ref": False, "stop_after": False}
+        flows.append(add_path(rng, f, payload, True))
+    case = {"kind": "prog", "payload": payload, "flows": flows, "mode": rng.choice(["start", "start", "activate"]), "followup": False}
+    if rng.random() < 0.3:
+        case["args2"] = True
+    if rng.random() < 0.3:
+        make_rounds(rng, case)
+    elif rng.random() < 0.25:
+        # one flow STOPS a competitor (`send StopFlow(flow_id="f<j>")`) on its way to its action: the target is dead when the
+        # conflicts are resolved — it is out of the competition (and its action must not start), whatever its specificity
+        cand = [i for i, f in enumerate(flows) if f["shape"] == "direct"]
+        if cand and n >= 2:
+            i = rng.choice(cand)
+            j = rng.choice([x for x in range(n) if x != i])
+            pre = list(flows[i].get("pre", []))
+            pre.insert(rng.randrange(len(pre) + 1), f"stop:{j}")
+            flows[i]["pre"] = pre
+    if rng.random() < 0.25:
+        case["evtype"] = "action"  # the triggering event is an action event (UtteranceUserActionFinished), matched as `UtteranceUserAction.Finished(...)`
+    for f in flows:
+        if f["prio"] and rng.random() < 0.2:
+            f["prio0"] = rng.choice(["0.3", "0.95", "1.0"])  # an earlier `priority` statement that the declared one overrides
+    return case
+
+
+def make_rounds(rng, case):
+    """The SAME flows compete again: activated flows that end after their action (they restart when they finish or fail), and
+    1..2 further events E whose payload has other values — the winner of every round follows that round's payload."""
+    case["mode"] = "activate"
+    case["noend"] = True
+    if rng.random() < 0.4:
+        # the SAME instance reaches its match statement again: body in `while True` (the losers are out of the later rounds)
+        case["loopbody"] = True
+        case["mode"] = "start"
+    for f in case["flows"]:
+        if f["shape"] not in ("direct", "await"):
+            f["shape"] = "direct"
+        wk = (f.get("wait") or {}).get("kind")
+        if wk in ("when", "and"):
+            # an and-group keeps the half that matched in an earlier round: its state would span the rounds
+            f["wait"] = {"kind": "or", "alt": None, "alt_first": False}
+        elif wk == "await_and":
+            f["wait"] = {"kind": "await_or", "alt_first": False}
+        if f["kind"] == "action":
+            f.pop("wrap", None)  # `say<d>` awaits the action: the flow would not end
+        f["pre"] = [p for p in f.get("pre", []) if p != "starthelper"]
+    payload = case["payload"]
+    rounds = []
+    for _ in range(rng.choice([1, 1, 2])):
+        rounds.append({k: (v if rng.random() < 0.5 else 3 - v) for k, v in payload.items()})
+    case["rounds"] = rounds
+    return case
+
+
+def g_prog_prio0(rng):
+    """A flow that declares the LOWEST legal priority, `priority 0.0`: every match of the flow is scaled to 0.0 — it does not
+    match (docs: "each match in the flow will then be multiplied by the current flow priority"); the others compete as usual."""
+    npay = rng.choice([1, 2, 3])
+    payload = {k: rng.choice([1, 2]) for k in rng.sample(KEYS, npay)}
+    n = rng.choice([2, 2, 3])
+    zero = rng.randrange(n)
+    flows = []
+    for i in range(n):
+        keys = rng.sample(list(payload), rng.randrange(0, len(payload) + 1))
+        flows.append({"pat": {k: payload[k] for k in keys}, "prio": "0.0" if i == zero else rng.choice([None, "0.5", "0.9"]), "loop": None,
+                      "shape": "direct", "kind": "action", "act": i, "ref": False, "stop_after": False})
+    return {"kind": "prog", "payload": payload, "flows": flows, "mode": "start", "followup": False}
 
 
 def g_prog_lowprio(rng):
@@ -186,7 +336,7 @@ def gen_cases(rng, tier):
     cases = []
     for _ in range(n_prog):
         r = rng.random()
-        c = g_prog(rng) if r < 0.82 else (g_prog_lowprio(rng) if r < 0.92 else (g_prog_stop2(rng) if r < 0.96 else g_prog_restart(rng)))
+        c = g_prog_prio0(rng) if r < 0.015 else g_prog(rng) if r < 0.57 else (g_prog_paths(rng) if r < 0.82 else (g_prog_lowprio(rng) if r < 0.92 else (g_prog_stop2(rng) if r < 0.96 else g_prog_restart(rng))))
         if tier == "quick":
             c["choices"] = [[rng.randrange(6) for _ in range(6)] for _ in range(3)]
         else:
@@ -198,6 +348,17 @@ def gen_cases(rng, tier):
         cases.append(g_fn(rng))
     for _ in range(2000 if tier == "quick" else 40000):
         cases.append(g_score(rng))
+    return cases
+
+
+def escalate(rng, focus, tier):
+    """search set used when only the proof / correspondence broke: programs (all generators), three choice sequences each"""
+    cases = []
+    for k in range(6000):
+        r = rng.random()
+        c = g_prog_paths(rng) if r < 0.5 else (g_prog(rng) if r < 0.85 else (g_prog_lowprio(rng) if r < 0.95 else g_prog_restart(rng)))
+        c["choices"] = [[rng.randrange(6) for _ in range(6)] for _ in range(3)]
+        cases.append(c)
     return cases
 
 
@@ -224,14 +385,93 @@ def action_stmt(f, i, loopname, second=False):
     return f'start UtteranceBotAction({action_args(f, tag, "script", second)})' + (" as $r" if f["ref"] else "")
 
 
-def render(case):
+def _pat_str(pat):
+    return ", ".join(f"{k}={v}" for k, v in pat.items())
+
+
+def wrappers(case):
+    """The wrapper flows a program uses: say<d> / emit<d> (d = nesting depth); deeper wrappers do something before they delegate."""
+    a2 = ", n=1" if case.get("args2") else ""
     out = []
+    for kind, base, inner in (("action", "say", "await UtteranceBotAction(script=$t" + a2 + ")"), ("send", "emit", "send Foo(x=$t" + a2 + ")")):
+        depth = max([f.get("wrap", 0) for f in case["flows"] if f["kind"] == kind] + [0])
+        for d in range(1, depth + 1):
+            if d == 1:
+                out.append(f"flow {base}1 $t\n  {inner}\n")
+            elif d == 2:
+                out.append(f"flow {base}2 $t\n  $q = 1\n  await {base}1 $t\n")
+            else:
+                out.append(f"flow {base}{d} $t\n  {base}{d - 1} $t\n")
+    return out
+
+
+def path_lines(f, i, loopname, a2, out):
+    """statements between the wait construct and the end of the flow: `pre` statements, then the (wrapped) action"""
+    lines = []
+    for k, p in enumerate(f.get("pre", [])):
+        if p == "assign":
+            lines.append(f"$x{k} = {k}")
+        elif p == "sendint":
+            lines.append(f'send UserIntentLog(flow_id="f{i}", intent="i{k}")')
+        elif p.startswith("stop:"):
+            lines.append(f'send StopFlow(flow_id="f{p[5:]}")')
+        elif p == "stopint":
+            lines.append(f'send StopFlow(flow_id="nosuchflow{k}")')
+        elif p == "starthelper":
+            out.append(f"flow noop{i}x{k}\n  match Never()\n")
+            lines.append(f"start noop{i}x{k}")
+        elif p == "awaitfin":
+            out.append(f"flow qfin{i}x{k}\n  $d = 1\n")
+            lines.append(f"await qfin{i}x{k}")
+    d = f.get("wrap", 0)
+    if d:
+        tag = f"{loopname}-{f['act']}"
+        lines.append(f'{"emit" if f["kind"] == "send" else "say"}{d} "{tag}"')
+    else:
+        lines.append(action_stmt(f, i, loopname, a2))
+    return lines
+
+
+def wait_and_act(f, i, pat, loopname, a2, out):
+    """the body of a `direct` flow from its wait construct to its action (phase 5: groups, `when … or when`, awaits of groups)"""
+    w = f.get("wait") or {"kind": "plain"}
+    act = ["  " + x for x in path_lines(f, i, loopname, a2, out)]
+    k = w["kind"]
+    if k == "plain":
+        return [f"  match E({pat})"] + act
+    if k == "or":
+        alts = [f"E({pat})", "X()" if w.get("alt") is None else f"E({_pat_str(w['alt'])})"]
+        if w.get("alt_first"):
+            alts.reverse()
+        return ["  match " + " or ".join(alts)] + act
+    if k == "and":
+        return [f"  match E({pat}) and E({_pat_str(w['alt'])})"] + act
+    if k == "when":
+        return [f"  when E({pat})"] + ["  " + x for x in act] + ["    match Never()", "  or when X()", "    match Never()"]
+    if k == "await_or":
+        out.append(f"flow u{i}\n  match E({pat})\n")
+        out.append(f"flow v{i}\n  match Never()\n")
+        alts = [f"u{i}", f"v{i}"]
+        if w.get("alt_first"):
+            alts.reverse()
+        return ["  await " + " or ".join(alts)] + act
+    if k == "await_and":
+        out.append(f"flow u{i}\n  match E({pat})\n")
+        out.append(f"flow v{i}\n  match E({_pat_str(w['alt'])})\n")
+        return [f"  await u{i} and v{i}"] + act
+    raise ValueError(k)
+
+
+def render(case):
+    out = wrappers(case)
     a2 = bool(case.get("args2"))
     for i, f in enumerate(case["flows"]):
         loopname = loop_name(f, i)
         deco = f'@loop("{f["loop"]}")\n' if f["loop"] else ""
         pat = ", ".join(f"{k}={v}" for k, v in f["pat"].items())
         prio = [f"  priority {f['prio']}"] if f["prio"] else []
+        if f["prio"] and f.get("prio0"):
+            prio.insert(0, f"  priority {f['prio0']}")
         body = []
         head = f"flow f{i}"
         if f["shape"] == "await":
@@ -248,19 +488,29 @@ def render(case):
             out.append(deco + f"flow o{i}\n  {action_stmt(f, i, loopname, a2)} as $r\n  start f{i}($r)\n  match Never()\n")
             head = f"flow f{i} $r"
             body += prio + [f"  match E({pat})", "  send $r.Start()"]
-        else:
-            trig = f"E2({pat})" if f.get("trigger") == "E2" else ("F()" if f.get("trigger") == "F" else f"E({pat})")
+        elif f.get("trigger") in ("E2", "F"):
+            trig = f"E2({pat})" if f.get("trigger") == "E2" else "F()"
             body += prio + [f"  match {trig}", "  " + action_stmt(f, i, loopname, a2)]
+        else:
+            body += prio + wait_and_act(f, i, pat, loopname, a2, out)
         if f.get("stop_after"):
             body += ["  match F()", "  send $r.Stop()"]
         if f.get("restart_after"):
             body += ["  match F()", "  send $r.Start()"]
-        body.append("  match Never()")
+        if not case.get("noend"):
+            body.append("  match Never()")
+        if case.get("loopbody") and f["shape"] in ("direct", "await"):
+            body = body[: len(prio)] + ["  while True"] + ["  " + x for x in body[len(prio):]]
         out.append(deco + head + "\n" + "\n".join(body) + "\n")
     kw = "activate" if case["mode"] == "activate" else "start"
     top = lambda i, f: ("o" if f["shape"] == "borrow" else "f") + str(i)  # noqa
     out.append("flow main\n" + "".join(f"  {kw} {top(i, f)}\n" for i, f in enumerate(case["flows"])) + "  match Never()\n")
-    return "\n".join(out)
+    src = "\n".join(out)
+    if case.get("evtype") == "action":
+        import re
+
+        src = re.sub(r"(?<![A-Za-z0-9_.])E\(", "UtteranceUserAction.Finished(", src)
+    return src
 
 
 # ----------------------------------------------------------------------------- implementation (recorders)
@@ -288,14 +538,71 @@ class Recorder:
         self.event_of = event_of
         self.all_counts = []
         self.saved = {}
+        # skeleton of the main loop of run_to_completion (phase 5): one entry per popped internal event / merge pass /
+        # resolution / advance of the winners, with the number of internal events pushed and the heads returned
+        self.skel = None
+        self.sk_heads = {}
+        self.sk_pending = None
+        self.ahf_depth = 0
 
     def __enter__(self):
         sm = self.sm
-        for name in ("_resolve_action_conflicts", "_abort_flow", "_generate_action_event_from_actionable_element"):
+        for name in ("_resolve_action_conflicts", "_abort_flow", "_generate_action_event_from_actionable_element",
+                     "_advance_head_front", "_process_internal_events_without_default_matchers"):
             self.saved[name] = getattr(sm, name)
         self.saved_choice = sm.random.choice
+        orig_ahf, orig_proc = self.saved["_advance_head_front"], self.saved["_process_internal_events_without_default_matchers"]
         orig_resolve, orig_abort, orig_gen = (self.saved[n] for n in ("_resolve_action_conflicts", "_abort_flow", "_generate_action_event_from_actionable_element"))
         rec = self
+
+        def proc(state, event):
+            if rec.skel is not None and rec.ahf_depth == 0:
+                rec.sk_pending = len(state.internal_events)  # the event was just popped
+            return orig_proc(state, event)
+
+        def ahf(state, heads):
+            if rec.skel is None or rec.ahf_depth > 0 or rec.depth > 0 or rec.cur is not None:
+                rec.ahf_depth += 1
+                try:
+                    return orig_ahf(state, heads)
+                finally:
+                    rec.ahf_depth -= 1
+            heads = list(heads)
+            kind = "ev" if rec.sk_pending is not None else ("adv" if rec.skel and rec.skel[-1][0] == "res" else "merge")
+            q0 = rec.sk_pending if kind == "ev" else len(state.internal_events)
+            rec.sk_pending = None
+            mset = []
+            if kind == "merge":
+                # status read from the head OBJECTS the loop has been handed so far (a head of an aborted flow is no longer in
+                # flow_state.heads but may still be MERGING in the loop's list)
+                mset = [u for u, h in rec.sk_heads.items() if h.status == sm.FlowHeadStatus.MERGING]
+            rec.ahf_depth += 1
+            try:
+                out = orig_ahf(state, heads)
+            finally:
+                rec.ahf_depth -= 1
+            npush = len(state.internal_events) - q0
+            uids = [h.uid for h in out]
+            for h in out:
+                rec.sk_heads[h.uid] = h
+            if kind == "merge":
+                rec.skel.append(["merge", mset, npush, uids, [h.uid for h in heads]])
+            else:
+                rec.skel.append([kind, npush, uids])
+            return out
+
+        def resolve_skel(state, heads):
+            if rec.skel is None:
+                return orig_resolve_rec(state, heads)
+            aset = [u for u, h in rec.sk_heads.items() if h.status == sm.FlowHeadStatus.ACTIVE
+                    and h.flow_state_uid in state.flow_states and sm.is_active_flow(state.flow_states[h.flow_state_uid])]
+            q0 = len(state.internal_events)
+            entry = ["res", aset, 0, [], [h.uid for h in heads], q0]
+            rec.skel.append(entry)
+            out = orig_resolve_rec(state, heads)
+            entry[2] = len(state.internal_events) - q0
+            entry[3] = [h.uid for h in out]
+            return out
 
         def resolve(state, heads):
             heads = list(heads)
@@ -317,7 +624,15 @@ class Recorder:
                     from nemoguardrails.colang.v2_x.runtime.flows import Action
 
                     nrefs = sum(1 for v in fs.context.values() if isinstance(v, Action) and v.uid == evd["act"])
-                call["heads"].append({"uid": h.uid, "flow": h.flow_state_uid, "flow_id": fs.flow_id, "loop": fs.loop_id, "scores": list(h.matching_scores),
+                root, anc = None, fs
+                for _ in range(12):  # nearest generated competitor (f<i> / h<i>) this head acts for: the flow itself or an ancestor
+                    if anc is None:
+                        break
+                    if _flow_index(anc.flow_id) is not None:
+                        root = anc.flow_id
+                        break
+                    anc = state.flow_states.get(getattr(anc, "parent_uid", None))
+                call["heads"].append({"uid": h.uid, "flow": h.flow_state_uid, "flow_id": fs.flow_id, "root": root, "loop": fs.loop_id, "scores": list(h.matching_scores),
                                       "ev": evd, "nrefs": nrefs, "catch": bool(h.catch_pattern_failure_label), "pos": h.position,
                                       "start": bool(evd["act"]) and evd["act"] in state.actions and evd["name"] == "Start" + state.actions[evd["act"]].name,
                                       "in_uids": (evd["act"] in fs.action_uids) if evd["act"] else None})
@@ -359,7 +674,10 @@ class Recorder:
                 rec.cur["choice"].append([len(seq), c])
             return seq[c % len(seq)]
 
-        sm._resolve_action_conflicts = resolve
+        orig_resolve_rec = resolve
+        sm._resolve_action_conflicts = resolve_skel
+        sm._advance_head_front = ahf
+        sm._process_internal_events_without_default_matchers = proc
         sm._abort_flow = abort
         sm._generate_action_event_from_actionable_element = gen
         sm.random.choice = choice
@@ -393,11 +711,14 @@ def run_prog(case):
     except Exception as e:  # noqa
         obs["skip"] = "parse:" + type(e).__name__ + ":" + str(e)[:80]
         return obs
-    events = [dict({"type": "E"}, **case["payload"])]
+    etype = "UtteranceUserActionFinished" if case.get("evtype") == "action" else "E"
+    events = [dict({"type": etype}, **case["payload"])]
     if any(f.get("trigger") == "E2" for f in case["flows"]):
         events.append(dict({"type": "E2"}, **case["payload"]))
     if case.get("followup"):
         events += [{"type": "F"}, {"type": "G"}]
+    for pl in case.get("rounds", []):
+        events.append(dict({"type": etype}, **pl))
     seen_sig = set()
     # "tree": systematic exploration of the tie-break tree — every run reports the candidate count of each random.choice
     # call; for every call beyond the forced prefix with n > 1 candidates the alternatives 1..min(n,4)-1 are scheduled.
@@ -422,14 +743,18 @@ def run_prog(case):
             obs["skip"] = "init:" + type(e).__name__ + ":" + str(e)[:80]
             return obs
         run["start_out"] = len(st.outgoing_events)
-        # the competing instances (first instance of every f<i>)
-        inst = {}
-        for uid, fs in st.flow_states.items():
-            if fs.flow_id.startswith("f") and fs.flow_id[1:].isdigit() and fs.flow_id not in inst and fs.status.value in ("started", "starting", "waiting") and fs.heads:
-                inst[fs.flow_id] = uid
+        # the competing instances (first live instance of every f<i>)
+        def instances():
+            d = {}
+            for uid, fs in st.flow_states.items():
+                if fs.flow_id.startswith("f") and fs.flow_id[1:].isdigit() and fs.flow_id not in d and fs.status.value in ("started", "starting", "waiting") and fs.heads:
+                    d[fs.flow_id] = uid
+            return d
+
+        inst = instances()
         run["inst"] = inst
 
-        def snap():
+        def snap(inst=inst):
             d = {}
             for fid, uid in inst.items():
                 fs = st.flow_states.get(uid)
@@ -442,15 +767,21 @@ def run_prog(case):
 
         run["before"] = snap()
         with Recorder(sm, choices) as rec:
-            for ev in events:
+            for k_ev, ev in enumerate(events):
                 step = {}
+                if case.get("rounds") and k_ev > 0:
+                    step["inst"] = instances()
+                    step["before"] = snap(step["inst"])
+                rec.skel, rec.sk_pending, rec.sk_heads = [], None, {}
                 try:
                     with contextlib.redirect_stdout(io.StringIO()):
                         sm.run_to_completion(st, dict(ev))
                     step["out"] = [_clean_event(e) for e in st.outgoing_events]
+                    step["skel"] = rec.skel
                 except Exception as e:  # noqa
                     step["exc"] = type(e).__name__ + ": " + str(e)[:100]
-                step["flows"] = snap()
+                rec.skel = None
+                step["flows"] = snap(step["inst"]) if "inst" in step else snap()
                 step["missing_actions"] = sorted({u for fs in st.flow_states.values() for u in fs.action_uids if u not in st.actions})
                 step["ncalls"] = len(rec.calls)
                 run["steps"].append(step)
@@ -630,6 +961,7 @@ def _run_impl(case):
     obs = run_prog(case) if case["kind"] == "prog" else run_fn(case)
     obs["_oracle"] = _oracle(case, obs)
     obs["_model"] = [call_expect(c) for c in all_calls(case, obs) if "exc" not in c]
+    obs["_model"] += [round_expect(st["skel"]) for r in obs.get("runs", []) for st in r.get("steps", []) if "skel" in st and "exc" not in st]
     obs["_sig"] = _signature(case, obs)
     obs["_nt"] = _nontrivial(case, obs)
     obs["_tags"] = _tags(case, obs)
@@ -682,6 +1014,29 @@ def call_expect(call):
         if any(u not in uid for u, _ in call["tbl_after"]):
             exp["tbl"].append([-1, -1])  # an action appeared during the call: never expected
     return [req, exp]
+
+
+def round_expect(skel):
+    """(driver request, expected answer) for the loop skeleton of one run_to_completion call: the Lean model of the main loop
+    (`ConflictRound.run` on the script world) is fed the recorded outputs of the real functions — events pushed and heads
+    returned per popped internal event / merge pass / resolution / advance, and the MERGING / alive heads the state holds when
+    the loop looks — and must reproduce, for every `_resolve_action_conflicts` call, the number of queued internal events, the
+    input heads (in order) and the advancing heads, consuming the whole recording."""
+    uid = {}
+    ids = lambda l: [_intern(uid, x) for x in l]  # noqa
+    script, calls = [], []
+    for e in skel:
+        if e[0] == "ev":
+            script.append(["ev", max(e[1], 0), ids(e[2])])
+        elif e[0] == "merge":
+            script.append(["merge", ids(e[1]), max(e[2], 0), ids(e[3])])
+        elif e[0] == "res":
+            script.append(["res", ids(e[1]), max(e[2], 0), ids(e[3])])
+            calls.append([e[5], ids(e[4]), ids(e[3])])
+        else:
+            script.append(["adv", max(e[1], 0), ids(e[2])])
+    neg = any((e[1] if e[0] in ("ev", "adv") else e[2]) < 0 for e in skel)
+    return [{"m": "C05.round", "script": script, "fuel": len(script) + 10}, {"round_calls": calls, "neg": neg}]
 
 
 def shared_action_region(call):
@@ -744,6 +1099,14 @@ def model_requests(case, obs):
 
 
 def compare_one(exp, m):
+    if "round_calls" in exp:
+        if exp["neg"]:
+            return "main loop: an internal event disappeared from the queue outside the pop (negative push count)"
+        if m["calls"] != exp["round_calls"] or m["bad"] or not m["ok"] or m["rest"]:
+            return (f"main loop of run_to_completion differs from the model (drain all internal events, merge, drain …, then resolve): "
+                    f"resolutions (queued events, input heads, advancing heads) impl {exp['round_calls']} model {m['calls']}"
+                    f"{' [model ran out of the recording]' if m['bad'] else ''}{' [recording not consumed]' if m['rest'] else ''}")
+        return None
     if "score_sign" in exp:
         # hypothesis `hr` of more_specific_wins: the float order (which the ranks are taken from) is the exact order of
         # priority * (9/10)^k; pairs whose exact values are closer than 1e-9 (relative) are outside the claim
@@ -796,6 +1159,20 @@ def _vec_ge(a, b):
     return True
 
 
+def _vec_ge_observed(a, b):
+    """a >= b on OBSERVED float vectors (the code's own numbers): equal floats go on to the next entry; floats that differ
+    by less than the tolerance are a near tie of two exact values the floats may order either way (0.9**4 vs 0.81*0.81):
+    the order at that entry is not part of the claim, either head may win."""
+    n = max(len(a), len(b))
+    for x, y in zip(_pad(a, n), _pad(b, n)):
+        if x == y:
+            continue
+        if _close(x, y):
+            return True
+        return x > y
+    return True
+
+
 def oracle_call(call):
     """Function-level reading of the property on one observed call (no model involved)."""
     if "exc" in call:
@@ -817,7 +1194,7 @@ def oracle_call(call):
             return f"loop {loop}: {len(g)} action events generated for {len(hs)} competing heads (expected exactly 1)"
         w = next(h for h in hs if h["uid"] == g[0])
         for h in hs:
-            if not _vec_ge(w["scores"], h["scores"]):
+            if not _vec_ge_observed(w["scores"], h["scores"]):
                 return f"loop {loop}: winner scores {w['scores']} are not maximal (competitor {h['scores']})"
             same = (h["ev"]["name"], h["ev"]["args"]) == (w["ev"]["name"], w["ev"]["args"])
             if same and h["ev"]["act"] and w["ev"]["act"] and h["ev"]["act"] != w["ev"]["act"] and not w.get("start"):
@@ -848,58 +1225,112 @@ def _flow_index(flow_id):
 def spec_vector(case, f):
     """Specificity vector of flow f computed from the patterns (independent of the interpreter)."""
     unmentioned = len(case["payload"]) - len(f["pat"])
+    w = f.get("wait") or {}
+    if w.get("kind") == "or" and isinstance(w.get("alt"), dict) and _pat_fits(case, w["alt"]):
+        # both alternatives of an or-group may match the event: the flow matched as specifically as its best fitting alternative
+        u2 = len(case["payload"]) - len(w["alt"])
+        unmentioned = min(unmentioned, u2) if _pat_fits(case, f["pat"]) else u2
     s = 0.9 ** unmentioned
     p = float(f["prio"]) if f["prio"] else 1.0
-    if f["shape"] == "await":
+    if f["shape"] == "await" or w.get("kind") in ("await_or", "await_and"):
         return [s, p]
     if f["shape"] == "helper":
         return [s * p, 1.0]
     return [s * p]
 
 
+def _pat_fits(case, pat):
+    return all(k in case["payload"] and case["payload"][k] == v for k, v in pat.items())
+
+
+def stopped_targets(case):
+    """flows that a fitting flow stops (`send StopFlow(flow_id=…)`) on its way to its action"""
+    out = set()
+    for f in case["flows"]:
+        for p_ in f.get("pre", []):
+            if p_.startswith("stop:") and fits(case, f):
+                out.add(int(p_[5:]))
+    return out
+
+
 def fits(case, f):
     if f.get("trigger") in ("E2", "F"):
         return False  # waits for another event: the first event must leave it untouched
-    return all(k in case["payload"] and case["payload"][k] == v for k, v in f["pat"].items())
+    if f["prio"] and float(f["prio"]) == 0.0:
+        return False  # declared priority 0.0: every match of the flow is scaled to 0.0 = no match
+    w = f.get("wait") or {}
+    if w.get("kind") == "or" and isinstance(w.get("alt"), dict) and _pat_fits(case, w["alt"]):
+        return True
+    if w.get("kind") in ("and", "await_and") and not _pat_fits(case, w["alt"]):
+        return False
+    return _pat_fits(case, f["pat"])
 
 
 def oracle_run(case, run):
-    flows = case["flows"]
-    step0 = run["steps"][0] if run["steps"] else None
     for k, st in enumerate(run["steps"]):
         if "exc" in st:
             return f"run_to_completion raised on event #{k}: {st['exc']}"
         if st["missing_actions"]:
             return f"after event #{k} flows reference actions that are no longer in state.actions"
-    if step0 is None:
+    if not run["steps"]:
         return None
-    if len(run["inst"]) != len(flows):
-        return None  # a competing flow never got started (generator limit), nothing to judge
-    main_loop = None
+    r = oracle_round(case, run, 0)
+    if r:
+        return r
+    # further rounds: the same (restarted) flows compete on an event E with another payload
+    for k, pl in enumerate(case.get("rounds", []), start=1):
+        if k < len(run["steps"]):
+            r = oracle_round(dict(case, payload=pl), run, k)
+            if r:
+                return f"round {k + 1} (payload {pl}): " + r
+    return None
+
+
+def rounds_judged(case, run):
+    return sum(1 for k in range(1, 1 + len(case.get("rounds", []))) if k < len(run["steps"])
+               and (len(run["steps"][k].get("inst", {})) == len(case["flows"]) or case.get("loopbody") and len(run["steps"][k].get("inst", {})) >= 2))
+
+
+def oracle_round(case, run, k):
+    """The property on the k-th event of a run (k = 0: the first event E; k > 0: a later round of a `rounds` case)."""
+    flows = case["flows"]
+    step0 = run["steps"][k]
+    before = step0.get("before", run["before"])
+    if len(step0.get("inst", run["inst"])) != len(flows) and not (k > 0 and case.get("loopbody")):
+        return None  # a competing flow never got (re)started, nothing to judge
+    calls0 = run["calls"][(run["steps"][k - 1].get("ncalls", 0) if k else 0): step0.get("ncalls", 0)]
     loops = {}
     for i, f in enumerate(flows):
-        b = run["before"][f"f{i}"]
-        loops[i] = b["loop"]
+        b = before.get(f"f{i}")
+        if b is not None:  # (loop bodies: a flow that failed in an earlier round is out of the game)
+            loops[i] = b["loop"]
     out = step0["out"]
     starts = [e for e in out if e["type"].startswith("Start") and e["type"].endswith("Action") or e["type"] == "Foo"]
     byloop = {}
     for i, f in enumerate(flows):
-        byloop.setdefault(loops[i], []).append(i)
+        if i in loops:
+            byloop.setdefault(loops[i], []).append(i)
     for loop, idx in byloop.items():
         names = {loop_name(flows[i], i) for i in idx}
         if len(names) != 1:
             return f"flows declared in loops {names} share the runtime loop id {loop}"
         lname = names.pop()
-        comp = [i for i in idx if fits(case, flows[i])]
+        killed = stopped_targets(case)
+        comp = [i for i in idx if fits(case, flows[i]) and i not in killed]
+        for i in idx:
+            if i in killed:
+                a = step0["flows"][f"f{i}"]
+                if a is not None and a["status"] not in ("stopped",):
+                    return f"loop {lname}: flow f{i} was stopped by another flow (StopFlow) but is {a['status']}"
         payloads = []
         for e in starts:
             tag = e.get("script", e.get("x"))
             if isinstance(tag, str) and tag.rsplit("-", 1)[0] == lname:
                 payloads.append((e["type"], tag))
         for i in idx:
-            if i in comp:
+            if i in comp or i in killed:
                 continue
-            b, a = run["before"][f"f{i}"], step0["flows"][f"f{i}"]
+            b, a = before[f"f{i}"], step0["flows"][f"f{i}"]
             if a is None or (a["status"], a["pos"], a["acts"]) != (b["status"], b["pos"], b["acts"]):
                 return f"flow f{i} whose match does not fit the event was touched: {b} -> {a}"
         if not comp:
@@ -917,8 +1348,8 @@ def oracle_run(case, run):
             return ("Foo" if f["kind"] == "send" else "StartUtteranceBotAction", f"{lname}-{f['act']}")
 
         # "chosen arbitrarily among EXACT ties": two competing flows whose specificity differs never reach the tie-break together
-        for call in run["calls"][: step0.get("ncalls", 0)]:
-            hs = [(h, _flow_index(h["flow_id"])) for h in call["heads"] if h["loop"] == loop]
+        for call in calls0:
+            hs = [(h, _flow_index(h.get("root") or h["flow_id"])) for h in call["heads"] if h["loop"] == loop]
             for a_, (h1, i1) in enumerate(hs):
                 for h2, i2 in hs[a_ + 1:]:
                     if i1 is None or i2 is None or i1 == i2 or i1 not in comp or i2 not in comp or h1["scores"] != h2["scores"]:
@@ -983,6 +1414,8 @@ def signature(case, obs, msg):
 def _signature(case, obs):
     try:
         calls = all_calls(case, obs)
+        if case.get("kind") == "prog" and any(f["prio"] and float(f["prio"]) == 0.0 and _pat_fits(case, f["pat"]) for f in case["flows"]):
+            return "priority-zero-unscaled"
         # most specific region first (the regions of the repaired findings overlap with the open ones)
         if any(double_delete_region(c) for c in calls):
             return "cowin-double-delete"
@@ -1028,6 +1461,20 @@ def _tags(case, obs):
         t.append("mode:" + case["mode"])
         for f in case["flows"]:
             t.append("shape:" + f["shape"])
+            if f["prio"] and float(f["prio"]) == 0.0:
+                t.append("priority-zero")
+            if f.get("wait"):
+                t.append("wait:" + f["wait"]["kind"])
+            for p_ in f.get("pre", []):
+                t.append("pre:" + p_.split(":")[0])
+            if f.get("wrap"):
+                t.append(f"wrap:{f['wrap']}")
+        if case.get("evtype"):
+            t.append("trigger:action-event")
+        if case.get("loopbody"):
+            t.append("loop-body")
+        if case.get("rounds"):
+            t.append(f"later-rounds-judged:{sum(rounds_judged(case, r) for r in obs['runs'] if 'steps' in r)}")
     for c in calls:
         t.append(f"heads:{min(len(c['heads']), 8)}")
         t.append(f"loops:{len({h['loop'] for h in c['heads']})}")
@@ -1073,6 +1520,14 @@ def shrink(case):
             nf = fl[:i] + fl[i + 1:]
             yield dict(case, flows=nf, followup=any(f["stop_after"] for f in nf))
     for i, f in enumerate(fl):
+        for k in ("wait", "pre", "wrap"):
+            if f.get(k):
+                g = {a: b for a, b in f.items() if a != k}
+                yield dict(case, flows=fl[:i] + [g] + fl[i + 1:])
+        if f.get("wrap", 0) > 1:
+            yield dict(case, flows=fl[:i] + [dict(f, wrap=f["wrap"] - 1)] + fl[i + 1:])
+        if len(f.get("pre", [])) > 1:
+            yield dict(case, flows=fl[:i] + [dict(f, pre=f["pre"][1:])] + fl[i + 1:])
         for k, v in (("shape", "direct"), ("prio", None), ("loop", None), ("ref", False), ("stop_after", False)):
             if f[k] != v and not (k == "ref" and f["stop_after"]):
                 g = dict(f, **{k: v})
@@ -1080,6 +1535,8 @@ def shrink(case):
                     pass
                 nf = fl[:i] + [g] + fl[i + 1:]
                 yield dict(case, flows=nf, followup=any(x["stop_after"] for x in nf))
+    if case.get("rounds"):
+        yield dict(case, rounds=case["rounds"][:-1])
     if isinstance(case.get("choices"), list) and len(case["choices"]) > 1:
         for c in case["choices"]:
             yield dict(case, choices=[c])
